@@ -293,7 +293,7 @@ func runC18(c *core.Ctx) core.Meta {
 	checkWGDistribution(c, lp, "R18.6")
 
 	// R18.9: the driver counts the work-groups it distributes with the grid builder's formula (R08.1's check)
-	checkWGCountFormula(c, prov, "R18.9", []string{driverPkg}, 4)
+	checkWGCountFormula(c, prov, "R18.9", []string{driverPkg}, 2)
 
 	// R18.8: the splitting loops of the driver's copy paths (shared with C11 R11.3)
 	st8 := c.Rule("R18.8", "every splitting loop of the driver's copy paths (host-to-device and device-to-host, DMA-based and direct-storage middleware) takes min(remaining, bytes left in the current page) per piece and addresses each piece through the page of its first byte: the pages of a distributed buffer or of a buffer on a unified device are not physically consecutive, so a piece that runs over the end of its page reads or writes an unrelated physical page, while the same copy on one GPU is correct", 4)
